@@ -11,6 +11,7 @@ import (
 	"strings"
 	"sync"
 	"sync/atomic"
+	"syscall"
 	"time"
 
 	openfgav1 "github.com/openfga/api/proto/openfga/v1"
@@ -18,6 +19,17 @@ import (
 	"github.com/openfga/openfga/internal/verifsim/simrt"
 	"github.com/openfga/openfga/pkg/storage"
 )
+
+// ErrSimBudget ends a run whose real (wall-clock) cost explodes: CPU work takes no virtual time, so
+// an exponential evaluation on cyclic data is never cut by the request deadline the way it would be
+// in production. Such runs are skipped (counted), they are neither violations nor infrastructure.
+var ErrSimBudget = errors.New("sim: wall-clock budget of the run exceeded")
+
+func wallNow() int64 {
+	var tv syscall.Timeval
+	_ = syscall.Gettimeofday(&tv) // real time: time.Now() is virtual inside a bubble
+	return tv.Sec*1e9 + int64(tv.Usec)*1e3
+}
 
 // ErrSimIO is the injected storage error.
 var ErrSimIO = errors.New("sim: injected storage I/O error")
@@ -75,7 +87,15 @@ type DS struct {
 	// Touch log for C26: which stores were touched by which request.
 	touch map[string]map[string]int
 	ops   int64
+
+	wallStart int64
+	// WallBudget is the real-time budget of the run in ns (default 12 s).
+	WallBudget int64
+	exceeded   atomic.Bool
 }
+
+// BudgetExceeded reports whether the run hit its wall-clock budget.
+func (d *DS) BudgetExceeded() bool { return d.exceeded.Load() }
 
 func NewDS(inner storage.OpenFGADatastore, run *simrt.Run, cfg DSConfig) *DS {
 	if cfg.MaxLatency <= 0 {
@@ -84,7 +104,7 @@ func NewDS(inner storage.OpenFGADatastore, run *simrt.Run, cfg DSConfig) *DS {
 	if cfg.StallLatency <= 0 {
 		cfg.StallLatency = 2 * time.Millisecond
 	}
-	return &DS{OpenFGADatastore: inner, run: run, cfg: cfg, reqOps: map[string]int{}, fired: map[string]int{}, touch: map[string]map[string]int{}}
+	return &DS{OpenFGADatastore: inner, run: run, cfg: cfg, reqOps: map[string]int{}, fired: map[string]int{}, touch: map[string]map[string]int{}, wallStart: wallNow(), WallBudget: 12e9}
 }
 
 func (d *DS) Inner() storage.OpenFGADatastore { return d.OpenFGADatastore }
@@ -144,6 +164,13 @@ func (d *DS) fire(kind string) bool {
 // enter is called at the start of every intercepted operation: it assigns the identity, applies
 // hooks, latency and "open" faults. It returns the op info and an injected error, if any.
 func (d *DS) enter(ctx context.Context, op, store, sig string, isWrite bool) (OpInfo, error) {
+	if d.exceeded.Load() {
+		return OpInfo{}, ErrSimBudget
+	}
+	if atomic.LoadInt64(&d.ops)%64 == 63 && wallNow()-d.wallStart > d.WallBudget {
+		d.exceeded.Store(true)
+		return OpInfo{}, ErrSimBudget
+	}
 	req := simrt.ReqID(ctx)
 	cs := d.run.Canon(store)
 	sig = op + "|" + cs + "|" + sig
